@@ -5,6 +5,7 @@ import (
 	"fmt"
 	"io"
 	"math/rand"
+	"strings"
 
 	"github.com/gobwas/ws"
 	"github.com/gobwas/ws/wsutil"
@@ -34,7 +35,9 @@ func C17(r *eng.Run) {
 	var ops []string
 	for i := 0; i < n; i++ {
 		var name string
-		switch r.T.Int(sim.LOp, 8) {
+		switch r.T.Int(sim.LOp, 9) {
+		case 8:
+			name = c17UpgraderMultiLine(r, &retained)
 		case 0, 1, 2:
 			name = c17Handshake(r, &retained)
 		case 3:
@@ -107,6 +110,57 @@ func c17Handshake(r *eng.Run, retained *[]func() string) string {
 	if wantP != "" {
 		r.Probe("retained_protocol")
 	}
+	return name
+}
+
+// c17UpgraderMultiLine: the client's extension offers arrive in several
+// Sec-WebSocket-Extensions header lines (legal: RFC 6455 §9.1); what the
+// upgrader returns must stay put.
+func c17UpgraderMultiLine(r *eng.Run, retained *[]func() string) string {
+	c, s := drawHS(r)
+	c.Debug, c.Protocols = 0, nil
+	s.Reject, s.Proto = 0, 0
+	s.Ext = []int{1, 4, 4, 5}[r.T.Int(sim.LCfg, 4)]
+	s.ExtAccept = extNames
+	if s.Kind == 2 {
+		s.Kind = 0
+	}
+	var lines [][]extSpec
+	for i, n := 0, 2+r.T.Int(sim.LCfg, 2); i < n; i++ {
+		var l []extSpec
+		for j, m := 0, 1+r.T.Int(sim.LCfg, 2); j < m; j++ {
+			name := extNames[r.T.Int(sim.LCfg, len(extNames))]
+			l = append(l, extSpec{Name: name, Params: drawParams(r, false)})
+		}
+		lines = append(lines, l)
+	}
+	c.Exts = lines[0]
+	for _, l := range lines[1:] {
+		var parts []string
+		for _, e := range l {
+			parts = append(parts, strings.ReplaceAll(e.String(), ";", "; "))
+		}
+		c.Header += "Sec-WebSocket-Extensions: " + strings.Join(parts, ", ") + "\r\n"
+	}
+	rand.Seed(int64(r.T.U32(sim.LMisc)))
+	first := runClient(r, c, NewPipe(r, nil))
+	sv := runServer(r, s, pipeFor(r, first.Written, DrawSeg(r)))
+	name := fmt.Sprintf("upgrader(kind=%d,ext=%d) with %d extension header lines", s.Kind, s.Ext, len(lines))
+	if !sv.ok() {
+		return name + "=failed"
+	}
+	all := hsClient{}
+	for _, l := range lines {
+		all.Exts = append(all.Exts, l...)
+	}
+	want, _ := expectedExts(all, s)
+	*retained = append(*retained, func() string {
+		if got := extStrings(sv.Exts); !sameStrings(got, want) {
+			return fmt.Sprintf("upgrader Handshake.Extensions are now %q, expected %q (%s)", got, want, name)
+		}
+		return ""
+	})
+	r.Probe("extensions_over_several_header_lines")
 	return name
 }
 
